@@ -299,7 +299,7 @@ def exampleInput : PMInput :=
     cell := fun i k j => [(i * 2 + k) * 2 + j + 1, 0], nested := true, nMappingLists := 2,
     maps := fun j => [{ label := if j = 0 then "a" else "b", unit := "1", isLut := false, first := 0, last := 65535,
                         slope := 3 / 2, intercept := 1, lut := [] }],
-    nPositions := 2, pos := fun i => [0, 0, (if i = 0 then 5 else 3)], ts := "1.2.840.10008.1.2.1" }
+    nPositions := 2, pos := fun i => [[0, 0, (if i = 0 then 5 else 3)]], ts := "1.2.840.10008.1.2.1" }
 
 example : (build exampleInput).toOption.map (fun o => (o.element, o.bitsAllocated, o.numberOfFrames, o.pixelData)) =
     some ("PixelData", 16, 4, [1,0, 3,0, 2,0, 4,0, 5,0, 7,0, 6,0, 8,0]) := by decide
